@@ -82,6 +82,13 @@ theorem as_rate_expr_spec_eyring (ctx : Ctx ℝ) (dH dS T : ℝ) (uks : Option (
     rw [neg_div, neg_div, div_div]
     ring
 
+/-- `as_rate_expr_refuses_too_many_keys` — the failure side of `as_rate_expr_spec_*` (whose hypotheses `u.length ≤ 2` / `≤ 3` are thus
+exactly the condition for the expression to be built): more unique keys than arguments is the `ValueError` of `Expr.__init__`. -/
+theorem as_rate_expr_refuses_too_many_keys (a e : ℝ) (u : List String) :
+    (2 < u.length → arrheniusRateExpr a e (some u) = .error .valueError)
+    ∧ (3 < u.length → eyringRateExpr a e (some u) = .error .valueError) :=
+  ⟨arrheniusRateExpr_too_many_keys a e u, eyringRateExpr_too_many_keys a e u⟩
+
 /-! ## the operator algebra -/
 
 /-- `operators_are_homomorphic`.  For operands `l`, `r` (numbers, strings, expressions; of the shape the operators
@@ -144,6 +151,21 @@ theorem operators_are_homomorphic (ctx : Ctx ℝ) (l r e : Val ℝ) (a b : ℝ)
     split at h
     · exact exprNeg_hom ctx l e a h hpl ha
     · cases h
+
+/-- `operators_build_or_refuse` — the success characterisation for `operators_are_homomorphic` (which assumes `… = .ok e`).
+SUCCESS: with at least one operand an Expr, no `MassAction` among the operands and no argument-less `Constant` (`constErr`),
+`+ * / **` build a tree, and so does `−` when the left operand is an Expr.  REFUSALS: two bare operands are `TypeError` for every
+operator, `-` of a bare value likewise, and `x + Constant()` is the `TypeError` of `Constant().trivially_zero`. -/
+theorem operators_build_or_refuse (l r : Val ℝ) (a b : ℝ) :
+    ((l.isNode = true ∨ r.isNode = true) → noMA l = true → noMA r = true → constErr l = none → constErr r = none →
+      (∃ e, pyAdd l r = .ok e) ∧ (∃ e, pyMul l r = .ok e) ∧ (∃ e, pyDivOp l r = .ok e) ∧ (∃ e, pyPow l r = .ok e)
+      ∧ (l.isNode = true → ∃ e, pySub l r = .ok e))
+    ∧ (pyAdd (.num a : Val ℝ) (.num b) = .error .typeError ∧ pySub (.num a : Val ℝ) (.num b) = .error .typeError
+      ∧ pyMul (.num a : Val ℝ) (.num b) = .error .typeError ∧ pyDivOp (.num a : Val ℝ) (.num b) = .error .typeError
+      ∧ pyPow (.num a : Val ℝ) (.num b) = .error .typeError ∧ pyNeg (.num a : Val ℝ) = .error .typeError)
+    ∧ pyAdd (symbolNode "x" : Val ℝ) (.node .const true [] none) = .error .typeError :=
+  ⟨fun hn hml hmr hcl hcr => operators_total l r hn hml hmr hcl hcr,
+   ⟨rfl, rfl, rfl, rfl, rfl, rfl⟩, rfl⟩
 
 /-- `every_tree_evaluates_to_its_meaning` — the induction over whole build programs.  For every program `p` over bare
 numbers / strings, `Constant`, `Symbol` and the operators `neg + − * / **` (any nesting, direct and reflected forms, every
@@ -224,6 +246,71 @@ theorem override_arrhenius (ctx : Ctx ℝ) (A E T v : ℝ) (key : String) (hk : 
       ok_bind, get_some hT', pyDiv_real hT0, exp_real, pure_eq_ok]
   · exact eval_arrhenius_node ctx A E T (some [key]) (fun u hu k' hk' => by cases hu; simp at hk'; subst hk'; exact hk) hT hT0
 
+/-- `override_masks_stored_argument` (generalises `override_replaces_exactly`): the evaluated stored arguments `vals` may be anything
+at position i — a nested expression, even one whose own evaluation FAILS — the override of the i-th unique key masks it; all other
+arguments (known to evaluate to `g[j]`) are untouched.  Generic in the number type. -/
+theorem override_masks_stored_argument {α : Type} [Add α] [Sub α] [Mul α] [Div α] [Neg α] [NatCast α] [PyNum α] (ctx : Ctx α)
+    (k : Kind) (vals : List (Except Err α)) (g : List α) (u : List String) (i : Nat) (v : α) (hlen : vals.length = g.length)
+    (hn : k.nargs = some (g.length : Int) ∨ k.nargs = none) (hu : u.Nodup) (hi : i < u.length) (hul : u.length ≤ g.length)
+    (h : ∀ key ∈ u, ctx.vars key = none) (hv : ∀ j (hj : j < g.length), j ≠ i → vals[j]? = some (.ok g[j])) :
+    allArgs (ctx.set u[i] v) k false g.length vals (some u) = .ok (g.set i v) :=
+  allArgs_override_masks ctx k vals g u i v hlen hn hu hi hul h hv
+
+/-- … at value level: `Arrhenius([<any expression>, E], ('k',))` with `k` set evaluates to `k·exp(−E/T)` whatever the stored
+first argument is (e.g. a `Symbol` of a missing variable, whose evaluation is `KeyError`). -/
+theorem override_masks_nested_expression (ctx : Ctx ℝ) (a0 : Val ℝ) (E T v : ℝ) (key : String) (hk : ctx.vars key = none)
+    (hkT : key ≠ "temperature") (hT : ctx.vars "temperature" = some T) (hT0 : T ≠ 0) :
+    eval (ctx.set key v) (.node .arrhenius false [a0, .num E] (some [key])) = .ok (v * Real.exp (-E / T)) :=
+  eval_arrhenius_override_masks ctx a0 E T v key hk hkT hT hT0
+
+/-- key-only instances (`cls.fk(*keys)`, `self.args is None`): every argument is the variable of its key —
+`Arrhenius.fk(kA, kE)` evaluates to `variables[kA]·exp(−variables[kE]/T)` (generic form: `allArgs_fk`) — and a key-only
+`MassAction.fk(key)` whose key is missing is `KeyError('Unique key missing')`: success and failure side. -/
+theorem key_only_instances (ctx : Ctx ℝ) (kA kE key : String) (A E T : ℝ) (hA : ctx.vars kA = some A) (hE : ctx.vars kE = some E)
+    (hT : ctx.vars "temperature" = some T) (hT0 : T ≠ 0) (hk : ctx.vars key = none) :
+    eval ctx (.node .arrhenius true [] (some [kA, kE])) = .ok (A * Real.exp (-E / T))
+    ∧ eval ctx (.node .massAction true [] (some [key])) = .error .keyError :=
+  ⟨eval_arrhenius_fk ctx kA kE A E T hA hE hT hT0, eval_massAction_fk_missing ctx key hk⟩
+
+/-- `override_under_composition`: the tree the operators build from a program does not depend on the variables, so a named
+override acts on the built tree exactly as on the program's arithmetic meaning — for every program over `+ − * / ** neg` whose
+leaves may be instances of any class carrying unique keys (`Prog.leaf`): evaluating the built tree WITH the override present equals
+the meaning WITH the override present (and likewise without). -/
+theorem override_under_composition (ctx : Ctx ℝ) (p : Prog) (e : Val ℝ) (key : String) (v w w0 : ℝ)
+    (hb : p.build = .ok e) (hs : p.okSub) (hm : p.meaning (ctx.set key v) = .ok w) (hm0 : p.meaning ctx = .ok w0) :
+    eval (ctx.set key v) e = .ok w ∧ eval ctx e = .ok w0 :=
+  ⟨every_tree_evaluates_to_its_meaning (ctx.set key v) p e w hb hm hs, every_tree_evaluates_to_its_meaning ctx p e w0 hb hm0 hs⟩
+
+/-- `override_of_defaulted_argument`: `Eyring([c0, c1], unique_keys=(k0, k1, k2))` — `__init__` appends the class default `conc0 = 1`
+(magnitude of 1 molar), and the third key then overrides that DEFAULTED argument like a stored one: with `k2 = v` the value is
+`c0·T·exp(−c1/T)·v^(1−order)`, without it the default `1^(1−order)`. -/
+theorem override_of_defaulted_argument (ctx : Ctx ℝ) (c0 c1 T v : ℝ) (k0 k1 k2 : String) (reac : List (String × ℤ))
+    (hnd : [k0, k1, k2].Nodup) (hk : ∀ key ∈ [k0, k1, k2], ctx.vars key = none) (hkT : k2 ≠ "temperature")
+    (hT : ctx.vars "temperature" = some T) (hT0 : T ≠ 0) (hr : ctx.rxn = .some reac) (hv : 0 < v) :
+    mkNode .eyring (.list [.num c0, .num c1]) (some [k0, k1, k2])
+        = .ok (.node .eyring false [.num c0, .num c1, .num 1] (some [k0, k1, k2]))
+    ∧ eval (ctx.set k2 v) (.node .eyring false [.num c0, .num c1, .num 1] (some [k0, k1, k2]))
+        = .ok (c0 * T * Real.exp (-c1 / T) * v ^ (1 - order reac))
+    ∧ eval ctx (.node .eyring false [.num c0, .num c1, .num 1] (some [k0, k1, k2]))
+        = .ok (c0 * T * Real.exp (-c1 / T) * 1 ^ (1 - order reac)) :=
+  eval_eyring_default_override ctx c0 c1 T v k0 k1 k2 reac hnd hk hkT hT hT0 hr hv
+
+/-- `override_in_massaction_arithmetic`: for `ma = MassAction([c])` whose rate coefficient `c` is any expression carrying unique keys
+(e.g. `Arrhenius([A, E], ('kA',))`) and an operand `o`: `ma*o`, `o*ma`, `ma/o`, `o/ma`, evaluated WITH the override `key = v` present,
+are `(k ∘ b)·∏c^ν` where `k`, `b` are the values of `c`, `o` with the override present — the override acts on exactly its argument
+inside the coefficient-level arithmetic (`key` is not a substance of the reaction). -/
+theorem override_in_massaction_arithmetic (ctx : Ctx ℝ) (c o e : Val ℝ) (key : String) (v k b : ℝ) (reac : List (String × ℤ))
+    (conc : String → ℝ) (hr : ctx.rxn = .some reac) (hkey : ∀ p ∈ reac, p.1 ≠ key)
+    (hc : ∀ p ∈ reac, ctx.vars p.1 = some (conc p.1) ∧ 0 < conc p.1)
+    (hk : eval (ctx.set key v) c = .ok k) (hb : eval (ctx.set key v) o = .ok b) (hmo : o.isMassAction = false) :
+    let ma : Val ℝ := .node .massAction false [c] none
+    let P := (reac.map fun p => conc p.1 ^ p.2).prod
+    (pyMul ma o = .ok e → eval (ctx.set key v) e = .ok (k * b * P))
+    ∧ (pyMul o ma = .ok e → eval (ctx.set key v) e = .ok (k * b * P))
+    ∧ (pyDivOp ma o = .ok e → b ≠ 0 → eval (ctx.set key v) e = .ok (k / b * P))
+    ∧ (pyDivOp o ma = .ok e → k ≠ 0 → eval (ctx.set key v) e = .ok (b / k * P)) :=
+  massAction_ops_override ctx c o e key v k b reac conc hr hkey hc hk hb hmo
+
 /-! ## polynomials and piecewise definitions -/
 
 /-- `poly_spec`: an instance of `create_Poly(p)` / `create_Poly(p, reciprocal=True)` with coefficients `c₀, c₁, …`
@@ -302,6 +389,22 @@ theorem equilibrium_equation_spec (ctx : Ctx ℝ) (v : Val ℝ) (K : ℝ) (prod 
     congr 2
     rw [← hl, eqExponents, List.map_append, List.prod_append, List.map_map]
     rfl
+
+/-- `piecewise_of_expressions`: piecewise definitions OF EXPRESSIONS — when the stored bounds / branches are arbitrary expressions
+(`Arrhenius`, polynomials, …) that evaluate to the numbers `b` (in the context their `_pw` body gives them: without the `reaction`
+keyword), the instance evaluates exactly like the instance with the numbers `b` stored, to which `piecewise_spec` applies (first
+closed interval containing x; the two `ValueError`s). All branches are evaluated eagerly, selected or not. -/
+theorem piecewise_of_expressions (ctx : Ctx ℝ) (p : String) (args : List (Val ℝ)) (b : List ℝ) (x : ℝ) (hx : ctx.vars p = some x)
+    (hargs : evalList (childCtx (.piecewise p) ctx) args = b.map Except.ok) :
+    eval ctx (.node (.piecewise p) false args none) = eval ctx (.node (.piecewise p) false (b.map Val.num) none) := by
+  rw [eval_piecewise_node_exprs ctx p args b x hx hargs, eval_piecewise_node ctx p b x hx]
+
+/-- … and for an equilibrium without any substance the code computes `K − None`: `TypeError` (failure side of
+`equilibrium_equation_spec`, whose hypothesis `eqExponents prod reac ≠ []` is therefore exactly the success condition besides the
+variables being present and positive). -/
+theorem equilibrium_equation_no_species (ctx : Ctx ℝ) (v : Val ℝ) (K : ℝ) (hK : eval ctx v = .ok K) :
+    equilibriumEquation ctx v [] [] = .error .typeError :=
+  equilibriumEquation_empty ctx v K hK
 
 /-! ## closed formulas of the other rate / equilibrium expression classes (stored numeric arguments, no unique keys) -/
 
@@ -387,6 +490,23 @@ theorem unit_scaling_arrhenius_rate (ctx ctx' : Ctx ℝ) (A E T c s θ : ℝ) (r
         = .ok (rate * s / c) :=
   arrhenius_rate_unit_scaling ctx ctx' A E T c s θ reac conc hc hθ hT0 hT hT' hr hr' hconc hconc'
 
+/-- `unit_scaling_other_classes` — the change-of-units algebra for three more classes (magnitudes; `quantities` objects stay with the
+oracle): `RampedTemp` with times in a unit `s` and temperatures in a unit `θ` times larger gives the temperature `/θ`; `GibbsEqConst` is
+invariant under the temperature unit; a `Radiolytic` rate scales by the product of the three unit factors of density, dose rate, yield. -/
+theorem unit_scaling_other_classes (ctx ctx' : Ctx ℝ) (T0 dTdt t s θ dHR dSR T g rho d a b c : ℝ) (hs : s ≠ 0) (hθ : θ ≠ 0)
+    (hT0 : T ≠ 0) (ht : ctx.vars "time" = some t) (ht' : ctx'.vars "time" = some (t / s))
+    (hT : ctx.vars "temperature" = some T) (hT' : ctx'.vars "temperature" = some (T / θ))
+    (hrho : ctx.vars "density" = some rho) (hd : ctx.vars "doserate" = some d)
+    (hrho' : ctx'.vars "density" = some (rho * a)) (hd' : ctx'.vars "doserate" = some (d * b)) :
+    eval ctx' (.node .rampedTemp false [.num (T0 / θ), .num (dTdt * s / θ)] none)
+        = (eval ctx (.node .rampedTemp false [.num T0, .num dTdt] none)).map (· / θ)
+    ∧ eval ctx' (.node .gibbsEqConst false [.num (dHR / θ), .num dSR] none)
+        = eval ctx (.node .gibbsEqConst false [.num dHR, .num dSR] none)
+    ∧ eval ctx' (.node (.radiolytic [""]) false [.num (g * c)] none)
+        = (eval ctx (.node (.radiolytic [""]) false [.num g] none)).map (· * (a * b * c)) :=
+  ⟨eval_rampedTemp_scaled ctx ctx' T0 dTdt t s θ hs hθ ht ht', eval_gibbs_scaled ctx ctx' dHR dSR T θ hθ hT0 hT hT',
+   eval_radiolytic_scaled ctx ctx' g rho d a b hrho hd hrho' hd' c⟩
+
 /-! ## behaviour mirrored from the code that is not plain arithmetic on values (exact rational witnesses) -/
 
 /-- `2 / MassAction([3])` for `2 A → …` at `[A] = 2`: `UnaryWrapper.__rtruediv__` gives `MassAction([2/3])`, i.e.
@@ -423,6 +543,42 @@ temperature -/
 example : ∃ t, eval (⟨fun k => if k = "temperature" then some (Sym.var "T") else none, .absent⟩ : Ctx Sym)
     (.node .arrhenius false [.num (Sym.num 2), .num (Sym.num 3)] none) = .ok t :=
   ⟨_, rfl⟩
+
+/-- `symbolic_then_substituted` applied to a concrete case, INCLUDING its hypothesis `hn` (numeric success at σ): `Arrhenius([2, 3])`
+at the symbolic temperature `T`, σ(T) = 300 — the symbolic value substituted at σ is `2·exp(−3/300)` -/
+example : ∃ t, eval (⟨fun k => if k = "temperature" then some (Sym.var "T") else none, .absent⟩ : Ctx Sym)
+      (.node .arrhenius false [.num (Sym.num 2), .num (Sym.num 3)] none) = .ok t
+    ∧ substEval (fun _ => 300) t = 2 * Real.exp (-3 / 300) := by
+  refine symbolic_then_substituted (fun _ => 300) _ _ rfl _ ?_
+  have h := eval_arrhenius_node
+    (Ctx.map (substEval fun _ => 300) (⟨fun k => if k = "temperature" then some (Sym.var "T") else none, .absent⟩ : Ctx Sym))
+    2 3 300 none (by simp) (by simp [Ctx.map, substEval]) (by norm_num)
+  simpa [Val.map, Val.mapList, substEval] using h
+
+/-- `override_masks_nested_expression`: the masked stored argument really fails on its own (`Symbol('missing')`) -/
+example : eval (⟨fun k => if k = "temperature" then some 300 else none, .absent⟩ : Ctx ℝ) (symbolNode "missing") = .error .keyError := by
+  simp [symbolNode, eval, call, Ctx.get]
+
+/-- `override_under_composition`: a program with a keyed leaf — `Arrhenius([2, 3], ('kA',)) * 2` -/
+example : (Prog.mul (.leaf (.node .arrhenius false [.num 2, .num 3] (some ["kA"]))) (.raw 2)).okSub := by
+  simp [Prog.okSub, plainOps, plainOpsList, noMA, noMAList]
+
+/-- `piecewise_of_expressions` with a genuine expression branch: bounds 0, 10 and the branch `Constant(2) * Symbol('y')` -/
+example : evalList (childCtx (.piecewise "x") (⟨fun k => if k = "y" then some 3 else if k = "x" then some 5 else none, .absent⟩ : Ctx ℝ))
+    [.num 0, .node .mul false [constNode 2, symbolNode "y"] none, .num 10] = [(0 : ℝ), 2 * 3, 10].map Except.ok := by
+  have h := eval_mul_node
+    (childCtx (.piecewise "x") (⟨fun k => if k = "y" then some 3 else if k = "x" then some 5 else none, .absent⟩ : Ctx ℝ))
+    (constNode 2) (symbolNode "y") 2 3 (by simp [constNode, eval, call]) (by simp [symbolNode, eval, call, Ctx.get, childCtx])
+  rw [evalList, evalList, evalList, evalList, h]
+  rfl
+
+/-- `override_of_defaulted_argument`, `override_in_massaction_arithmetic`: their key hypotheses are satisfiable (three distinct keys;
+a keyed Arrhenius coefficient that evaluates with the override present) -/
+example : (["k0", "k1", "k2"] : List String).Nodup := by decide
+example : ∃ k, eval ((⟨fun n => if n = "temperature" then some 300 else none, .absent⟩ : Ctx ℝ).set "kA" 5)
+    (.node .arrhenius false [.num 2, .num 3] (some ["kA"])) = .ok k :=
+  ⟨_, (override_arrhenius (⟨fun n => if n = "temperature" then some 300 else none, .absent⟩ : Ctx ℝ) 2 3 300 5 "kA"
+    (by simp) (by decide) (by simp) (by norm_num)).1⟩
 
 /-- … and the identity (every field is checked) -/
 example : PyHom (id : ℝ → ℝ) where
